@@ -31,8 +31,11 @@ package server
 
 //@ define cc(c) = ref(core.conn, c)
 
+// Pool representation invariant (core.pwf) is assumed at the call: every Pool method is verified to preserve it
+// for its own pool; that distinct pools own disjoint list nodes is not expressed in these contracts.
 //@ func listenServer.getConn
 //@   props C04 C15
+//@   assume at call Pool.Get#0 :: core.pwf(pool)
 //@   requires r != nil && ls.Options != nil && core.EngineGlobal != nil
 //@   requires 0 <= slot && slot < 16384 && rs(slot) != nil && rs(slot).Master != nil
 //@   requires forall j int :: 0 <= j && j < len(rs(slot).Slaves) ==> rs(slot).Slaves[j] != nil
@@ -40,6 +43,7 @@ package server
 //@   ensures[conn@C04] result1 == nil ==> result0 != nil && has(core.EngineGlobal.ProxyPool, result3) && cc(result0).opened && cc(result0).loop != nil && cc(result0).loop.poller != nil && cc(result0).outFragQueue != nil && core.fwf(cc(result0).outFragQueue)
 //@   ensures[role@C04] (result1 == nil && masterOnly(ls, r)) ==> result3 == rs(slot).Master.Addr
 //@   ensures[member@C04] result1 == nil ==> (result3 == rs(slot).Master.Addr || (exists j int :: 0 <= j && j < len(rs(slot).Slaves) && result3 == rs(slot).Slaves[j].Addr))
+//@   ensures[others] forall c *core.conn :: !fresh(c) ==> c.opened == old(c.opened)
 //@   ensures[errs] result1 == nil || result1 == codec.AddrNotFound || result1 == codec.UnKnownProxyPool || result1 == codec.UnKnownProxyPoolConn
 
 //@ use queue
@@ -75,12 +79,17 @@ package server
 //@   ensures[owner@C03] out == nil ==> (forall k int32 :: has(r.Body, k) ==> r.Body[k].Owner == c)
 //@   loop 0
 //@     modifies liveSlaves, allmem(string), allmem(*core.Frag), allmem(core.SConn)
+//@     modifies core.conn.opened, core.eventloop.connections, core.poolConn.c, allmaps(core.EngineGlobal.eng.el.connections)
 //@     modifies core.Pool.AutoBanFlag, time.Time.wall, time.Time.ext, time.Time.loc, core.Pool.LiftBanOrder, core.activeList.count, core.activeList.front, core.activeList.back, core.poolConn.next, core.poolConn.prev
 //@     invariant r != nil && c != nil && ls.Options != nil && core.EngineGlobal != nil && cq(c) != nil && cqwf(c)
 //@     invariant cq(c).count == old(cq(c).count) && (forall i int :: 0 <= i && i < cq(c).count ==> cqn(c, i) == old(cqn(c, i)) && cqn(c, i) != r)
 //@     invariant forall k int32 :: has(r.Body, k) ==> (r.Body[k] != nil && 0 <= k && k < 16384)
 //@     invariant len(frags) == len(sConns) && fresh(frags) && fresh(sConns)
-//@     invariant forall j int :: 0 <= j && j < len(frags) ==> (frags[j] != nil && sConns[j] != nil && okconn(sConns[j]))
+//@     invariant forall j int :: 0 <= j && j < len(frags) ==> (frags[j] != nil && sConns[j] != nil)
+//@     invariant forall j int :: 0 <= j && j < len(frags) ==> allocated(cc(sConns[j]))
+//@     invariant forall j int :: 0 <= j && j < len(frags) ==> cc(sConns[j]).opened
+//@     invariant forall j int :: 0 <= j && j < len(frags) ==> cc(sConns[j]).loop != nil && cc(sConns[j]).loop.poller != nil
+//@     invariant forall j int :: 0 <= j && j < len(frags) ==> cc(sConns[j]).outFragQueue != nil
 //@     invariant forall k int32 :: visited(k) ==> (exists j int :: 0 <= j && j < len(frags) && frags[j] == r.Body[k])
 //@     invariant forall s int32 :: (0 <= s && s < 16384 && rs(s) != nil) ==> (rs(s).Master != nil && (forall j int :: 0 <= j && j < len(rs(s).Slaves) ==> rs(s).Slaves[j] != nil))
 //@     invariant forall a string :: has(core.EngineGlobal.ProxyPool, a) ==> core.EngineGlobal.ProxyPool[a] != nil
@@ -92,3 +101,24 @@ package server
 //@     invariant forall j int :: 0 <= j && j < len(frags) ==> (frags[j] != nil && sConns[j] != nil && okconn(sConns[j]))
 //@     invariant forall j int :: 0 <= j && j <= rangeindex ==> frags[j].Owner == c
 //@     invariant forall k int32 :: has(r.Body, k) ==> (exists j int :: 0 <= j && j < len(frags) && frags[j] == r.Body[k])
+// Backend connection initialisation (C04): the bytes returned by OnSOpened are written to the new connection
+// before anything else (eventloop.open), so they precede the first request on the wire.
+
+//@ define bytes_are(b, s) = len(b) == len(s) && (forall k int :: 0 <= k && k < len(s) ==> b[k] == s[k])
+
+//@ func listenServer.OnBoot
+//@   props C04
+//@   requires ls.Options != nil
+//@   modifies authCmd
+//@   ensures[auth@C04] len(ls.Password) > 0 ==> authCmd == s_cat("*2\r\n$4\r\nauth\r\n$", s_cat(itoa(len(ls.Password)), s_cat("\r\n", s_cat(ls.Password, "\r\n"))))
+//@   ensures[noauth@C04] len(ls.Password) == 0 ==> authCmd == old(authCmd)
+
+//@ func listenServer.OnSOpened
+//@   props C04
+//@   requires s != nil
+//@   modifies cc(s).initStep, cc(s).initStatus
+//@   ensures[none@C04] (len(authCmd) == 0 && !cc(s).isSlave) ==> out == nil && cc(s).initStatus == core.Initialized
+//@   ensures[auth@C04] (len(authCmd) > 0 && !cc(s).isSlave) ==> out != nil && bytes_are(out, authCmd) && cc(s).initStep == 1 && cc(s).initStatus == core.Initializing
+//@   ensures[readonly@C04] (len(authCmd) == 0 && cc(s).isSlave) ==> out != nil && bytes_are(out, "*1\r\n$8\r\nREADONLY\r\n") && cc(s).initStep == 1 && cc(s).initStatus == core.Initializing
+//@   ensures[both@C04] (len(authCmd) > 0 && cc(s).isSlave) ==> out != nil && bytes_are(out, s_cat(authCmd, "*1\r\n$8\r\nREADONLY\r\n")) && cc(s).initStep == 2 && cc(s).initStatus == core.Initializing
+//@   ensures[action] action == core.None
